@@ -120,6 +120,21 @@ class Repo:
                 for n_ in m_.tree.body:
                     if isinstance(n_, ast.FunctionDef):
                         local[n_.name] = [a.arg for a in n_.args.args]
+                # nested functions and methods of the module's classes (called as `self.m(...)`), when the name is unique in the module
+                extra: Dict[str, List[List[str]]] = {}
+                for cls_ in [x for x in ast.walk(m_.tree) if isinstance(x, ast.ClassDef)]:
+                    for f_ in cls_.body:
+                        if isinstance(f_, ast.FunctionDef):
+                            ps_ = [a.arg for a in f_.args.args]
+                            static_ = any(ast.unparse(dd_) == "staticmethod" for dd_ in f_.decorator_list)
+                            extra.setdefault(f_.name, []).append(ps_ if static_ else ps_[1:])
+                top_ = {id(x) for x in m_.tree.body} | {id(f_) for cls_ in ast.walk(m_.tree) if isinstance(cls_, ast.ClassDef) for f_ in cls_.body}
+                for f_ in ast.walk(m_.tree):
+                    if isinstance(f_, ast.FunctionDef) and id(f_) not in top_:
+                        extra.setdefault(f_.name, []).append([a.arg for a in f_.args.args])
+                for nm_, lst_ in extra.items():
+                    if nm_ not in local and len(lst_) == 1 and not nm_.startswith("__"):
+                        local[nm_] = lst_[0]
                 _c.positional_calls(m_.tree, local, keep)
 
     def mod(self, dotted: str) -> Module:
